@@ -347,6 +347,8 @@ pub struct GEntry {
 pub struct ContEntry {
     pub c: Option<Rc<Cont>>,
     pub shares: u32,
+    /// harness synchronisation channel standing in for the count of an Arc<container>
+    pub chan: usize,
     pub init_uid: u32,
     pub init_addr: usize,
     pub kind: u8,
@@ -405,6 +407,9 @@ pub struct World {
     pub caches: Vec<Option<crate::extras::CacheEntry>>,
     pub accs: Vec<Option<crate::extras::AccEntry>>,
     pub extra_counts: std::collections::BTreeMap<String, u64>,
+    pub first_read: Vec<(usize, u32)>,
+    pub gen_set: Vec<bool>,
+    pub markers: Vec<String>,
 }
 
 thread_local! {
